@@ -5,8 +5,10 @@
 #![allow(single_use_lifetimes, elided_lifetimes_in_paths, absolute_paths_not_starting_with_crate)]
 #![allow(let_underscore_drop, variant_size_differences, static_mut_refs)]
 #![allow(clippy::all, clippy::pedantic)]
+#![allow(unsafe_op_in_unsafe_fn)]
 
 pub(crate) mod common;
 pub(crate) mod spec;
 mod c10;
+mod wrappers;
 mod c15;
